@@ -5,9 +5,7 @@
    Photon counts / mode counts are [nat]; cardinalities are exact [N].
    [orbits] is Kelleher's accelerated-ascending partition generator exactly as written in the
    source: the array prefix a[0..k-1] is kept as a stack (head = a[k-1]), [yy] is the variable y.
-   The implementation's [orbit_cardinality] goes through double-precision factorials; the model is
-   the exact integer the docstring promises (number of samples in the orbit); the check compares
-   the two and reports where the implementation is not exact. *)
+   [orbit_cardinality] is the exact-integer computation of the source (since commit 87b9aa4). *)
 From Coq Require Import List Arith NArith Bool Lia.
 Import ListNotations.
 
@@ -112,11 +110,22 @@ Fixpoint mults (fuel : nat) (l : list nat) : list nat :=
 Definition counts (l : list nat) : list nat := mults (length l) l.
 Definition prod_fact (cs : list nat) : N := fold_right (fun c acc => (factN c * acc)%N) 1%N cs.
 
+(* orbit_cardinality as in the source (after commit 87b9aa4): 0 when the orbit has more parts than there are
+   modes, else the multinomial coefficient by exact integer division *)
 Definition orbit_cardinality (orbit : list nat) (modes : nat) : N :=
-  (factN modes / prod_fact (counts (pad orbit modes)))%N.
+  if modes <? length orbit then 0%N
+  else (factN modes / prod_fact (counts (pad orbit modes)))%N.
 
 Definition event_cardinality (photons maxc modes : nat) : N :=
   fold_right (fun orb acc => if list_max orb <=? maxc then (orbit_cardinality orb modes + acc)%N else acc)
+             0%N (orbits photons).
+
+(* OLD variant (before 87b9aa4), kept by name for the refutation only: no guard on the orbit length (and, in the
+   source, floating point — not modelled) *)
+Definition orbit_cardinality_pre87b9aa4 (orbit : list nat) (modes : nat) : N :=
+  (factN modes / prod_fact (counts (pad orbit modes)))%N.
+Definition event_cardinality_pre87b9aa4 (photons maxc modes : nat) : N :=
+  fold_right (fun orb acc => if list_max orb <=? maxc then (orbit_cardinality_pre87b9aa4 orb modes + acc)%N else acc)
              0%N (orbits photons).
 
 (* event_to_sample: the orbits of the event with their cardinalities as weights; np.random.choice(p=...) can
@@ -125,7 +134,7 @@ Definition event_cardinality (photons maxc modes : nat) : N :=
 Definition event_to_sample (photons maxc modes : nat) (d : nat) (perm : list nat) : option (list nat) :=
   if maxc * modes <? photons then None
   else
-    let orbs := filter (fun o => list_max o <=? maxc) (orbits photons) in
+    let orbs := filter (fun o => (list_max o <=? maxc) && (length o <=? modes)) (orbits photons) in
     let cands := filter (fun o => negb (N.eqb (orbit_cardinality o modes) 0)) orbs in
     match cands with
     | [] => None
